@@ -54,6 +54,8 @@ def gen_cases(rng, tier):
       k = max(k, 2)   # C01's domain is nr >= 3 (nr = 2 leaves a single row; degenerate grids are C16's)
     cases.append({"kind": "table", "step": str(s), "k": k, "target": target, "combo": rng.choice(["nr_dr", "cutoff_nr", "cutoff_dr"]),
                   "step_rho": str(rng.choice(steps)), "k_rho": rng.choice([1, 2, 3, 7, 10, 99]), "combo_rho": rng.choice(["nr_dr", "cutoff_nr", "cutoff_dr"])})
+  if tier in ["quick","thorough"]:
+    cases.append({"kind": "suite"})   # the repository's own tests with this check's contracts armed
   return cases
 
 
@@ -345,5 +347,9 @@ def run_table(case, ctx):
 
 
 def run_case(case, ctx):
+  if case.get("kind") == "suite":
+    import suite_contracts
+    ctx.cls("kind:suite_with_contracts")
+    return suite_contracts.run_suite(ctx, 'c11', ['init_cutoff'])
   ctx.cls("kind:" + case["kind"])
   return {"lattice": run_lattice, "rejections": run_rejections, "defaults": run_defaults, "table": run_table}[case["kind"]](case, ctx)
